@@ -441,6 +441,23 @@ class Body:
                         ct = substitute_closure(htm.call_term(inner.term, inner.bb), cc[1], cc[2])
                         out.append(VirtualCallSite(cs, inner, at, ct))
                 continue
+            if known and k is not None and depth <= 1 and len(cs.args) == 2 and re.search(r"(Option::<T>|Result::<T, E>)::(map|and_then)$", k.split("{")[0]):
+                # `opt.map(f)` with a small loop-free closure f: the calls f makes are shown at the adaptor's site, with the
+                # closure's parameter standing for the payload of the receiver
+                tm = tm or Terms(self)
+                ct_ = tm.operand(cs.args[1], cs.bb)
+                while ct_[0] in ("mut", "ref"):
+                    ct_ = ct_[1]
+                if ct_[0] == "closure" and ct_[1] in self.facts.bodies:
+                    hb = self.facts.bodies[ct_[1]]
+                    if len(hb.blocks) <= 80 and not hb.natural_loops():
+                        htm = Terms(hb)
+                        params = (tm.operand(cs.args[0], cs.bb),)
+                        for inner in hb.calls_deep(depth + 1):
+                            at = [substitute_closure(htm.operand(a, inner.bb), ct_[2], params) for a in inner.args] if not isinstance(inner, VirtualCallSite) else [substitute_closure(a["t"], ct_[2], params) for a in inner.args]
+                            ctm = substitute_closure(htm.call_term(inner.term, inner.bb), ct_[2], params)
+                            out.append(VirtualCallSite(cs, inner, at, ctm))
+                continue
             if not known or k is None or k in known or k not in self.facts.bodies or depth > 1:
                 continue
             # (a helper taking &mut arguments cannot be inlined as a value, but the calls it makes can still be shown)
@@ -2683,6 +2700,13 @@ def try_propagation(body, cs, tm=None):
         if dt[0] != "discr":
             continue
         inner = dt[1]
+        if inner[0] == "call" and inner[1].endswith("::branch") and len(inner[2]) == 1:
+            # `x.transpose()?`: an Option<Result<..>> turned inside out keeps the Err an Err
+            w_ = inner[2][0]
+            while w_ != key and w_[0] == "call" and len(w_[2]) == 1 and re.search(r"(Option|Result)::<.*>::transpose$", w_[1].split("{")[0]):
+                w_ = w_[2][0]
+            if w_ == key and w_ is not inner[2][0]:
+                inner = ("call", inner[1], (key,)) + tuple(inner[3:])
         is_branch = inner[0] == "call" and inner[1].endswith("::branch") and len(inner[2]) == 1 and inner[2][0] == key
         if not is_branch and body.raw.get("inlined") and inner[0] == "call" and inner[1].endswith("::branch") and len(inner[2]) == 1 and inner[2][0][0] == "phi" and key in inner[2][0][1]:
             # the result of an inlined copy that returns this call's value on one of its paths, `?`-ed by the caller
